@@ -13,6 +13,9 @@ Definition written (fs : cfs) (o : cop) := match is_save o with Some (t, _, _) =
 Definition entries_of (fs : cfs) (d : cdoc) : mentries :=
   match tree_of cxml cbytes Z cpar fs d MANIFEST with Some x => centries x | None => [] end.
 Definition ents_eqb := list_eqb ent_eqb.
+(* the hypothesis of the theorems (Pkgproof.WFd, as the boolean Package.WFdb) holds of the model's state but not of the implementation's *)
+Definition wf_lost (fsm : cfs) (dm : cdoc) (fs' : cfs) (d' : cdoc) : bool := cWFdb fsm dm && negb (cWFdb fs' d').
+Definition is_nil_parts (d : cdoc) : bool := match parts _ (cont _ _ d) with [] => true | _ => false end.
 
 (* C04.  1: PkgOK lost (the model keeps it)   2: saved zip has not the required shape   3: manifest entry list differs
    from the model's   4: result differs   5: duplicate dict keys (abstraction broken)   9: exact state differs (fidelity) *)
@@ -27,6 +30,7 @@ Definition chk04 (c : case) : nat :=
           | _, _ => false end then 2
   else if negb (ents_eqb (entries_of fs' d') (entries_of fsm dm)) then 3
   else if negb (out_eqb r rm) then 4
+  else if wf_lost fsm dm fs' d' then 8
   else if doc_eqb d' dm && file_eqb (written fs' o) (written fsm o) then 0 else 9.
 
 (* C03.  1: the part map after the operation is not the model's   2: the bytes returned by get_part differ
@@ -54,7 +58,7 @@ Definition chk03 (c : case) : nat :=
   else if negb (out_eqb r rm) then 2
   else if match r with Done => negb (saved_matches fs' d' o) | _ => false end then 3
   else if negb (file_content_eqb (written fs' o) (written fsm o)) then 4
-  else if cts_invb fsm dm && negb (cts_invb fs' d') then 6
+  else if wf_lost fsm dm fs' d' then 6
   else if doc_eqb d' dm && file_eqb (written fs' o) (written fsm o) then 0 else 9.
 (* C11 (save half).  1: the save changed the document in memory (strict comparison, generator masked)
    2: result differs   3: the file read back is not the document (layout-insensitive projection when pretty)
@@ -73,10 +77,36 @@ Definition chk11 (c : case) : nat :=
                     if negb (view_eqb_strict fs' d' fs d) then 1
                     else if negb (saved_matches fs' d' o) then 3
                     else if negb (file_content_eqb (written fs' o) (written fsm o)) then 4
+                    else if wf_lost fsm dm fs' d' then 8
                     else if doc_eqb d' dm then 0 else 9
                 | _ => 0
                 end
-       | None => if negb (view_eqb fs' d' fsm dm) then 6 else if doc_eqb d' dm then 0 else 9
+       | None => if negb (view_eqb fs' d' fsm dm) then 6 else if wf_lost fsm dm fs' d' then 8 else if doc_eqb d' dm then 0 else 9
+       end.
+
+(* C10 (document half).  A case carries the twin (the other one of original / clone; empty document when there is none).
+   1: the clone is not equal to the original at birth   2: cloning changed the original   3: the clone is not the model's clone
+   4: an operation on one document changed the other (part map or bookkeeping)   5: abstraction   6: part map differs from the
+   model's step   7: result differs   9: fidelity *)
+Definition case10 := (cfs * cdoc * cdoc * cop * cfs * cdoc * cdoc * out cbytes)%type.
+Definition has_twin (d : cdoc) : bool := negb (is_nil_parts d).
+Definition chk10 (c : case10) : nat :=
+  let '(fs, d, tw, o, fs', d', tw', r) := c in
+  let '((fsm, dm), rm) := cstep FIXED (fs, d) o in
+  if negb (cwfb fs' d') then 5
+  else match o with
+       | OClone =>
+           let '(origm, clonem) := cd_clone FIXED fs d in
+           if negb (view_eqb_strict fs' d' fs d) then 1
+           else if has_twin tw' && negb (view_eqb_strict fs' tw' fs d) then 2
+           else if negb (view_eqb fs' d' fs clonem) then 3
+           else if doc_eqb d' clonem && (negb (has_twin tw') || doc_eqb tw' origm) then 0 else 9
+       | _ =>
+           if has_twin tw && negb (doc_eqb tw' tw && view_eqb_strict fs' tw' fs tw) then 4
+           else if negb (view_eqb fs' d' fsm dm) then 6
+           else if negb (out_eqb r rm) then 7
+           else if wf_lost fsm dm fs' d' then 8
+           else if doc_eqb d' dm then 0 else 9
        end.
 
 (* which variant of the code does the implementation follow on this step? (diagnosis only) *)
